@@ -3,10 +3,12 @@
      the centres are further apart than 2R or the pair predicate was evaluated on that pair and said no
      (the computed shell count is sufficient: C01_far_image_is_far / C01_outside_shells_is_far);
    - C01_scored_disc_packing_has_no_overlap: for circle and trimer shapes this means no point of the
-     plane is interior to two copies.  For polygons the geometric conclusion additionally needs the
-     completeness of the polygon pair test, which is not proved (see props/C12.v). *)
+     plane is interior to two copies.  
+   - C01_scored_convex_polygon_packing: for convex polygon shapes, two placed copies sharing an interior
+     point are further apart than 2R or one has all its vertices strictly inside the other (uses the
+     completeness of the polygon pair test, props/C12.v). *)
 From Coq Require Import ZArith List Bool Reals Lra. Import ListNotations.
-From PV Require Import Num NumR model.Geom proofs.LatticeFacts proofs.SiteFacts proofs.OverlapFacts proofs.PackingFacts.
+From PV Require Import Num NumR model.Geom proofs.LatticeFacts proofs.SiteFacts proofs.OverlapFacts proofs.ConvexFacts proofs.PackingFacts proofs.PolygonFacts.
 
 Theorem C01_scored_disc_packing_has_no_overlap :
   forall (st : pstateR) (l : list discR), wf_state st -> rigid_inputs st -> p_shape NumR st =
@@ -68,3 +70,16 @@ Proof.
   - split; cbn; [|lra]. repeat constructor; cbn; lra.
   - constructor; [|constructor]. cbn. split; [lra|]. replace (0 * 0 + 0 * 0)%R with 0%R by ring. rewrite sqrt_0. lra.
 Qed.
+
+Theorem C01_scored_convex_polygon_packing :
+  forall (st : pstateR) (l : list segR), wf_state st -> p_shape NumR st = Poly l -> packed_score
+    NumR st <> None -> forall (i j : nat) (n m : Z), i < length (p_syms NumR st) -> j < length
+    (p_syms NumR st) -> ~ (i = j /\ n = 0%Z /\ m = 0%Z) -> let P := placed_poly (copy st i) l in
+    let Q := placed_poly (image st j n m) l in forall sP sQ : R, convex sP P -> convex sQ Q ->
+    closed P -> closed Q -> forall x : pt, strictly_inside sP P x -> strictly_inside sQ Q x ->
+    (sq NumR (p_radius NumR st * n2)%num < centre_dist2 (copy st i) (image st j n m))%R \/
+    (forall e : segR, In e P -> strictly_inside sQ Q (seg_start e)) \/ (forall f : segR, In f Q
+    -> strictly_inside sP P (seg_start f)).
+Proof. exact scored_convex_polygon_packing. Qed.
+Print Assumptions C01_scored_convex_polygon_packing.
+
